@@ -79,7 +79,9 @@ fn cross_process(ctx: &Ctx, specs: &[Spec], nproc: usize, sub: &str) {
     let here: Vec<Vec<u64>> = specs.iter().map(|s| s.compute()).collect();
     let input = json!({ "specs": specs });
     for p in 0..nproc {
-        match run_child("c12", &input, std::time::Duration::from_secs(600), &[]) {
+        // the first child runs with the log level of the `log` facade raised to Trace
+        let env: &[(&str, &str)] = if p == 0 { &[("PMH_VERIF_LOG", "trace")] } else { &[] };
+        match run_child("c12", &input, std::time::Duration::from_secs(600), env) {
             ChildOutcome::Done(v) => {
                 let outs: Vec<Vec<u64>> = serde_json::from_value(v["outs"].clone()).unwrap_or_default();
                 if outs.len() != specs.len() {
@@ -115,7 +117,7 @@ fn cross_process(ctx: &Ctx, specs: &[Spec], nproc: usize, sub: &str) {
 pub fn run(ctx: &Ctx) {
     ctx.set_rule("proptest generates a computation spec for every sketcher type of the crate (ProbMinHash2/3/3a/3aSha over u64 and String keys with every entry point incl. std HashMap, SuperMinHash f64/f32, SuperMinHash2 u64/u32, SetSketch u16/u32, \
         OptDens/RevOptDens f64/f32, ProbOrdMinHash2 with FNV/WyHash) with parameters and input. Oracle: the bit pattern of all sketch views is identical for (i) two new instances in one thread and an instance that was used before and reset, (ii) 16 new instances started together behind a barrier in 16 threads, \
-        (iii) new instances in freshly started child processes (new address space layout, new RandomState keys, new ThreadRng); sub-check hashmap-instances: the std-HashMap entry points only, eight instances each fed a new map of the same content (own RandomState, own iteration order). Non-trivial = input of at least 2 items. Distinct = distinct serialised spec.");
+        (iii) new instances in freshly started child processes (new address space layout, new RandomState keys, new ThreadRng; the first child runs with the log level raised to Trace, so that every log statement's arguments are evaluated); sub-check hashmap-instances: the std-HashMap entry points only, eight instances each fed a new map of the same content (own RandomState, own iteration order). Non-trivial = input of at least 2 items. Distinct = distinct serialised spec.");
     ctx.assume("the harness does not own the scheduler: thread interleavings are sampled; the sketchers share no mutable state, what is hunted is hidden per-instance / per-thread / per-process input");
     super::run_fixed_tier(ctx, replay);
     let (cases, max_m, max_n) = ctx.tier.pick((6_000, 128, 300), (120_000, 512, 2000));
